@@ -366,6 +366,14 @@ func (r *Run) Finish(rule, evalKey, distinctSet string, minDistinct int) {
 	for k, v := range r.knownSeen {
 		kf[k] = v
 	}
+	// every listed (unrepaired) finding of this property gets its line, also when this run's random
+	// workload happened not to reproduce it
+	for _, k := range r.known {
+		if k.Property == r.ID && k.Status == "known" && r.knownSeen[k.Class] == 0 {
+			fmt.Printf("KNOWN-FINDING: property=%s %s [class=%s] (listed; not re-observed in this run)\n", r.ID, k.What, k.Class)
+			kf[k.Class] = 0
+		}
+	}
 	cov["known_findings_observed"] = kf
 	cov["inconclusive"] = r.inconcl
 	if len(r.vioClasses) > 0 {
